@@ -447,6 +447,109 @@ theorem apply_good (chk : Bool) (s : St) (others : Int) (op : Op) (s' : St) (out
               · simp only; omega
               · have := hg.solvent; simp only; split <;> omega
               · exact hg.unacc_nonneg
+  | terminate processed penalty vested =>
+    simp only [apply, guard_ok] at h
+    obtain ⟨h1, h⟩ := h
+    by_cases hemp : processed.isEmpty = true
+    · simp only [hemp, if_true] at h
+      cases hc : checked chk s with
+      | error e => simp [hc] at h
+      | ok s1 =>
+        simp only [hc] at h
+        injection h with h; injection h with h _; subst h
+        rw [checked_ok hc]; exact hg
+    · simp only [hemp, Bool.false_eq_true, if_false] at h
+      obtain ⟨q1, q2, q3, q4, q5⟩ := removeAll_spec processed s.sectors hg.sec_nodup hg.sec_nonneg
+      cases hrs : removeAll s.sectors processed with
+      | mk secs' released =>
+        rw [hrs] at q1 q2 q3 q4 q5
+        simp only at q1 q2 q3 q4 q5
+        simp only [hrs] at h
+        cases hp : repayPartial { s with sectors := secs', ip := s.ip - released,
+                                         debt := s.debt + penalty } vested with
+        | error e => simp [hp] at h
+        | ok r =>
+          obtain ⟨s2, toBurn, tu⟩ := r
+          simp only [hp] at h
+          have hd := hg.debt_nonneg
+          have hl := hg.lf_nonneg
+          obtain ⟨p1, p2, p3, p4, p5, p6, p7⟩ :=
+            repayPartial_ok (by omega) (by simp only; omega) (by simp only; omega) hp
+          simp only at p3 p5 p6
+          cases hb : burn s2 toBurn with
+          | error e => simp [hb] at h
+          | ok s3 =>
+            simp only [hb] at h
+            cases hn : notify s3 others (-released - tu) with
+            | error e => simp [hn] at h
+            | ok s4 =>
+              simp only [hn] at h
+              cases hc : checked chk s4 with
+              | error e => simp [hc] at h
+              | ok s5 =>
+                simp only [hc] at h
+                injection h with h; injection h with h _; subst h
+                obtain ⟨b1, _, _⟩ := burn_ok hb
+                have n1 := notify_fields hn
+                have c1 := checked_ok hc
+                subst c1; subst n1; subst b1; subst p1
+                constructor
+                · exact hg.pcd_eq
+                · simp only; rw [hg.ip_eq]; omega
+                · exact hg.pre_nodup
+                · exact q2
+                · exact hg.pre_nonneg
+                · exact q3
+                · have := hg.net_eq; simp only; omega
+                · simp only; omega
+                · simp only; omega
+                · have := hg.solvent; simp only; omega
+                · exact hg.unacc_nonneg
+  | consensusFault penalty slasherReward vested sendOk =>
+    simp only [apply, guard_ok] at h
+    obtain ⟨h1, h⟩ := h
+    cases hp : repayPartial { s with debt := s.debt + penalty } vested with
+    | error e => simp [hp] at h
+    | ok r =>
+      obtain ⟨s2, burnAmount, tu⟩ := r
+      simp only [hp] at h
+      have hd := hg.debt_nonneg
+      have hl := hg.lf_nonneg
+      obtain ⟨p1, p2, p3, p4, p5, p6, p7⟩ :=
+        repayPartial_ok (by omega) (by simp only; omega) (by simp only; omega) hp
+      simp only at p3 p5 p6
+      generalize hpaid : (if sendOk = true then min burnAmount slasherReward else 0) = paid at h
+      have hpaid0 : 0 ≤ paid ∧ paid ≤ burnAmount := by
+        subst hpaid; split <;> omega
+      cases hb : burn { s2 with balance := s2.balance - paid } (burnAmount - paid) with
+      | error e => simp [hb] at h
+      | ok s4 =>
+        simp only [hb] at h
+        cases hn : notify s4 others (-tu) with
+        | error e => simp [hn] at h
+        | ok s5 =>
+          simp only [hn] at h
+          cases hc : checked chk s5 with
+          | error e => simp [hc] at h
+          | ok s6 =>
+            simp only [hc] at h
+            injection h with h; injection h with h _; subst h
+            obtain ⟨b1, _, _⟩ := burn_ok hb
+            have n1 := notify_fields hn
+            have c1 := checked_ok hc
+            subst c1; subst n1; subst b1; subst p1
+            constructor
+            · exact hg.pcd_eq
+            · exact hg.ip_eq
+            · exact hg.pre_nodup
+            · exact hg.sec_nodup
+            · exact hg.pre_nonneg
+            · exact hg.sec_nonneg
+            · have := hg.net_eq; simp only; omega
+            · simp only; omega
+            · simp only; omega
+            · have := hg.solvent; simp only; omega
+            · exact hg.unacc_nonneg
 
 /-- every reachable ledger state satisfies the invariant -/
 theorem run_good (ops : List (Int × Op)) : ∀ s, Good s → Good (run s ops) := by
